@@ -20,7 +20,9 @@ def main(argv):
     if argv and argv[0] == "replay":
         from sx import run
         import sx.models  # noqa
-        return run.replay_file(argv[1], all_harness_fns())
+        import json
+        pid = json.load(open(argv[1]))["property"]
+        return run.replay_file(argv[1], load(pid).HARNESSES)
     ap = argparse.ArgumentParser()
     ap.add_argument("pid")
     ap.add_argument("--tier", default=os.environ.get("VERIF_TIER", "quick"))
